@@ -14,7 +14,7 @@ import random
 import shutil
 import tempfile
 
-from . import check_interval, tla
+from . import check_interval, spec_iface, tla
 from .engine import Report
 
 UNIVERSE_QUICK = {"RelVals": "{0, 1, 2}", "MaxRelLen": 2, "Epochs": "{0, 1}", "Pres": "{0, 2}", "Posts": "{0, 1}", "Devs": "{0, 1}",
@@ -435,6 +435,97 @@ def _arbitrary_chunk(seeds):
     return n, fails, raised
 
 
+# --------------------------------------------------------------------------- ArbitraryEq: MC + B1 (C04, === leaves)
+# final releases only, as C04 states (PEP 440 treats pre-/post-releases specially under < and >; DESIGN 13)
+ARB_GRIDS = [(["1.0", "2.0", "3.0"], ["1.0.0", "2.0.0", "3.0.0"]), (["1", "1.5", "2!0"], ["1.0", "1.5.0", "2!0.0"]), (["0.9.9", "1.10", "1.10.1"], ["0.9.9.0", "1.10.0", "1.10.1.0"])]
+
+
+def _arb_chunk(args):
+    states, n = args
+    from dep_logic.specifiers import parse_version_specifier
+    fails, cnt, raised_where_spec_answers = [], 0, 0
+    for st in states:
+        for pts, alt in ARB_GRIDS:
+            def text(t):
+                return "abc" if t["pt"] == 0 else (pts if t["sp"] == 1 else alt)[t["pt"] - 1]
+
+            def build(x):
+                return parse_version_specifier("===" + text(x["t"])) if x["k"] == "arb" else spec_iface.build(x, pts)
+
+            def den(x):     # the candidates [pt, sp] a value admits (meaning layer of ArbitraryEq)
+                if x["k"] == "arb":
+                    return {(x["t"]["pt"], x["t"]["sp"])} if x["t"]["pt"] else set()
+                d = spec_iface.den(x, n)
+                return {(p, sp) for p in range(1, n + 1) for sp in (1, 2) if 2 * p - 1 in d}
+            a, b = st["a"], st["b"]
+            want = (den(a) & den(b)) if st["op"] == "and" else (den(a) | den(b)) if st["op"] == "or" else None
+            for order in ((0, 1), (1, 0)) if st["op"] != "not" else ((0, 1),):
+                cnt += 1
+                try:
+                    x, y = build(a), build(b)
+                    ops = (x, y) if order == (0, 1) else (y, x)
+                    expr = f"{ops[0]} {st['op']} {ops[1]}" if st["op"] != "not" else f"~{x}"
+                    res = (ops[0] & ops[1]) if st["op"] == "and" else (ops[0] | ops[1]) if st["op"] == "or" else ~x
+                except ValueError:
+                    if st["res"]["k"] != "raise":
+                        raised_where_spec_answers += 1          # allowed by the statement; counted
+                    continue
+                except Exception as e:  # noqa: BLE001
+                    fails.append((f"C04:arbitrary-b1:{st['op']}({a['k']},{b['k']}):raises-{type(e).__name__}", repr(e), {"a": a, "b": b, "op": st["op"], "grid": pts}))
+                    continue
+                if st["op"] == "not":
+                    fails.append(("C04:arbitrary-b1:not:returns", f"{expr} returned {check_interval._s(res)}; ~(===V) has no representation and must raise ValueError", {"a": a, "grid": pts}))
+                    continue
+                ctx = {"a": a, "b": b, "op": st["op"], "order": order, "grid": pts, "expr": expr, "spec_result": st["res"]["k"]}
+                try:
+                    got_in = {(p_, sp) for p_ in range(1, n + 1) for sp in (1, 2) if ((pts if sp == 1 else alt)[p_ - 1] in res)}
+                    got_ct = {(p_, sp) for p_ in range(1, n + 1) for sp in (1, 2) if res.contains((pts if sp == 1 else alt)[p_ - 1])} if hasattr(res, "contains") else got_in
+                except Exception as e:  # noqa: BLE001
+                    fails.append((f"C04:arbitrary-b1:{st['op']}:in-raises-{type(e).__name__}", f"{expr}: {e!r}", ctx))
+                    continue
+                if got_in != want or got_ct != want:
+                    bad = sorted((got_in ^ want) | (got_ct ^ want))[:4]
+                    fails.append((f"C04:arbitrary-b1:{st['op']}({a['k']},{_kind(b)}):wrong-set", f"{expr} -> {check_interval._s(res)}: membership differs on {[(pts if sp == 1 else alt)[p_ - 1] for p_, sp in bad]}", ctx))
+    return cnt, fails, raised_where_spec_answers
+
+
+def _kind(x):
+    return x["k"] if x["k"] != "union" else f"union{len(x['rs'])}"
+
+
+def arbitrary_mc(rep: Report, thorough: bool) -> None:
+    import shutil
+    import tempfile
+    n = 3
+    tmp = tempfile.mkdtemp(prefix="verif_arb_")
+    try:
+        cfgp = os.path.join(tmp, "c.cfg")
+        open(cfgp, "w").write(f"SPECIFICATION Spec\nCONSTANTS\n N = {n}\nINVARIANT ArbExact\nINVARIANT ArbTotalWhereSimple\nCHECK_DEADLOCK FALSE\n")
+        d = os.path.join(tmp, "d")
+        r = tla.run_tlc("ArbitraryEq.tla", cfgp, workers=8, args=["-dump", d])
+        if r.violated:
+            rep.violation(f"C04:spec:ArbitraryEq:{r.violated}", f"TLC: invariant {r.violated} violated by the transcribed === algebra", {"tlc_tail": r.out[-1500:]})
+            return
+        tla.require_ok(r, "TLC ArbitraryEq")
+        rep.add("states", r.distinct)
+        rep.add("transitions", r.generated)
+        rep.cov.setdefault("tlc_runs", []).append({"module": "ArbitraryEq", "constants": {"N": n}, "invariants": ["ArbExact", "ArbTotalWhereSimple"], "distinct": r.distinct, "wall_s": round(r.wall, 1)})
+        states = [s for s in tla.load_dump(d + ".dump") if s["op"] != "init"]
+    finally:
+        shutil.rmtree(tmp, ignore_errors=True)
+    size = max(1, len(states) // 32)
+    total = drift = 0
+    with mp.Pool(16) as pool:
+        for cnt, fails, rs in pool.map(_arb_chunk, [(states[i:i + size], n) for i in range(0, len(states), size)]):
+            total += cnt
+            drift += rs
+            for f in fails:
+                rep.violation(*f)
+    rep.add("traces_validated_against_impl", total)
+    rep.count("arbitrary_b1_vectors", total)
+    rep.count("arbitrary_b1_valueerror_where_the_specification_answers", drift)
+
+
 # --------------------------------------------------------------------------- entry
 def run(pid: str, tier: str, replay: str | None = None) -> int:
     thorough = tier == "thorough"
@@ -511,6 +602,7 @@ def run(pid: str, tier: str, replay: str | None = None) -> int:
                 rep.violation(*f)
         rep.count("arbitrary_equality_expressions", len(seeds))
         rep.count("arbitrary_equality_raised_ValueError", nr)
+        arbitrary_mc(rep, thorough)          # the === algebra as a specification (ArbitraryEq.tla), every transition replayed
         check_interval.pairs_membership(rep, 4 if thorough else 3)
         check_interval.b2_behaviours(rep, 3, num=(6000 if thorough else 800), depth=(16 if thorough else 12))
     if pid in ("C04", "C06"):
